@@ -359,6 +359,15 @@ theorem safe_cons (s : Seg) (hs : s ≠ dotdot) (x : List Seg) (hx : safe 0 x = 
   have := safe_append [s] x 0 (safe_single s hs 0) hx
   simpa using this
 
+/-- one step down and then any single component (even `..`) does not climb above the start -/
+theorem safe_two (a b : Seg) (ha : Clean a) : safe 0 [a, b] = true := by
+  obtain ⟨h1, h2, h3⟩ := ha
+  by_cases hb : b = dotdot
+  · simp [safe, h1, h2, h3, hb]
+  · by_cases hb2 : b = dot ∨ b = []
+    · simp [safe, h1, h2, h3, hb, hb2]
+    · simp [safe, h1, h2, h3, hb, hb2]
+
 theorem safe_snoc (x : List Seg) (hx : safe 0 x = true) (s : Seg) (hs : s ≠ dotdot) : safe 0 (x ++ [s]) = true :=
   safe_append x [s] 0 hx (safe_single s hs 0)
 
@@ -463,16 +472,16 @@ theorem pcopiesOps_under (c : Cfg) (o : Path) (to : List Seg) (cs : List PCopy)
       (ih (fun q hq => h q (by simp [hq])) _)
 
 def PageOk (c : Cfg) (pg : Page) : Prop :=
-  safeRel pg.loc = true ∧ (∀ f ∈ pg.files, safeRel f = true) ∧
+  safe 0 pg.loc = true ∧ (∀ f ∈ pg.files, safeRel f = true) ∧
   (∀ pc ∈ pg.copies, ∀ t, pc.tree = some t → TreeOk t) ∧
   (c.repaired = true ∨ ∀ pc ∈ pg.copies, copyEscapes pg pc = false)
 
 theorem pageOps_under (c : Cfg) (o : Path) (ho : Normal o) (created : List Path) (pg : Page) (h : PageOk c pg) :
     Under o (pageOps c o created pg) := by
   obtain ⟨hloc, hfiles, htrees, hesc⟩ := h
-  have hrel : safe 0 ("page".toList :: splitSlash pg.loc) = true :=
+  have hrel : safe 0 ("page".toList :: pg.loc) = true :=
     safe_cons _ (by decide) _ hloc
-  have hto : o ++ ["page".toList] ++ splitSlash pg.loc = o ++ ("page".toList :: splitSlash pg.loc) := by simp
+  have hto : o ++ ["page".toList] ++ pg.loc = o ++ ("page".toList :: pg.loc) := by simp
   unfold pageOps
   simp only [hto]
   refine Under.append (Under.append (Under.append ?_ ?_) ?_) ?_
@@ -580,7 +589,7 @@ theorem writeOpsW_allowed (sk : Bool) (c : Cfg) (s : Site) (hl : LinksOk c.links
   · apply AllAllowed.of_under
     apply pagesOps_under _ _ ho
     intro pg hpg
-    obtain ⟨h1, _, h3, h4⟩ := hs.pages pg hpg
+    obtain ⟨h1, h3, h4⟩ := hs.pages pg hpg
     refine ⟨h1, h3, h4, ?_⟩
     rcases hv with h | h
     · exact Or.inl h
@@ -619,7 +628,7 @@ theorem writeOpsW_allowed (sk : Bool) (c : Cfg) (s : Site) (hl : LinksOk c.links
     · apply Under.flatMap
       intro n hn
       apply copyFile_under
-      have := under_join _ ho _ (safe_cons "src".toList (by decide) _ (hs.srcFiles n hn))
+      have := under_join _ ho _ (safe_two "src".toList (baseName n) ⟨by decide, by decide, by decide⟩)
       simpa using this
     · exact Under.nil
   apply AllAllowed.append; rotate_left
